@@ -84,6 +84,27 @@ func (c *Ctx) attackerScope(r *Report, rule string) map[*ssa.Function]bool {
 			roots = append(roots, f)
 		}
 	}
+	// the import side of a serialised state is input too (its bytes may be corrupted): the
+	// functions that take the resume state into use, found by role - they load
+	// HandshakeConfig.ResumeState - and the one that expands the public State
+	for _, f := range c.Fns {
+		if f.Parent() != nil || len(f.Blocks) == 0 || !inModule(f) {
+			continue
+		}
+		if strings.HasSuffix(short(f), "dtls.State).generateInternalState") {
+			roots = append(roots, f)
+			continue
+		}
+		for _, b := range f.Blocks {
+			for _, in := range b.Instrs {
+				if u, ok := in.(*ssa.UnOp); ok {
+					if _, fld, _, okF := fieldLoad(u); okF && fld == "ResumeState" {
+						roots = append(roots, f)
+					}
+				}
+			}
+		}
+	}
 	cg := c.CG()
 	seen := map[*ssa.Function]bool{}
 	work := append([]*ssa.Function{}, roots...)
@@ -242,6 +263,58 @@ func ruleBounds(c *Ctx, r *Report) {
 					moved = true
 					nMoved++
 					r.OKTrivial("bounds-reviewed", key, pos, "re-cut of the reviewed "+s.what+" sites of "+on+" (all "+fmt.Sprint(total)+" are gone from it): "+sample.Verdict+": "+sample.Reason)
+				}
+			}
+		}
+		if !moved {
+			// the reviewed expression now sits in a helper that is handed its container: at every
+			// call site of the helper, with the argument written in place of the parameter, it is
+			// the expression that was reviewed in that caller
+			if sites, closed := c.staticCallers(s.f); closed && len(sites) > 0 && len(s.f.Params) > 0 {
+				all := true
+				from := ""
+				for _, cs := range sites {
+					call, isCall := cs.Call.(*ssa.Call)
+					if !isCall {
+						all = false
+						break
+					}
+					subst := map[*ssa.Parameter]string{}
+					for i, p := range s.f.Params {
+						if i < len(call.Call.Args) {
+							subst[p] = normShapeOf(call.Call.Args[i])
+						}
+					}
+					shapeParamSubst = subst
+					inCaller := normSiteShape(s.ins)
+					shapeParamSubst = nil
+					rk := short(cs.Fn) + "|" + s.what + "|" + inCaller
+					if _, ok := coveredBy(reviewed[rk], s.goal); !ok || inCaller == nshape {
+						all = false
+						break
+					}
+					// the checks that were in force at the reviewed expression are in force at the call
+					if st, okB := base[rk]; okB && st.Status == "reviewed" {
+						have := map[string]bool{}
+						for _, f := range getAn(cs.Fn).branchFacts(call.Block()) {
+							have[normFact(f)] = true
+						}
+						for _, g := range st.Guards {
+							if !have[g] {
+								all = false
+							}
+						}
+						if !all {
+							break
+						}
+					}
+					used[rk] = true
+					from = short(cs.Fn)
+				}
+				if all {
+					moved = true
+					nMoved++
+					r.OKTrivial("bounds-reviewed", key, pos, "the expression reviewed in "+from+" (and every other caller), moved into a helper that is handed its container")
 				}
 			}
 		}
@@ -664,12 +737,28 @@ func ruleBufferLimits(c *Ctx, r *Report) {
 	// inserts happen only below Push, after the limit test
 	var limitCmps []*ssa.BinOp
 	consts := map[int64]bool{}
+	// the comparisons sit in Push or in a yes/no helper of the package that Push asks
+	limitFns := []*ssa.Function{push}
+	limitHelper := map[*ssa.Function]bool{}
 	for _, b := range push.Blocks {
 		for _, in := range b.Instrs {
-			if bo, ok := in.(*ssa.BinOp); ok && (bo.Op == token.GEQ || bo.Op == token.GTR) {
-				if k, isC := constInt(bo.Y); isC && k >= 100 {
-					limitCmps = append(limitCmps, bo)
-					consts[k] = true
+			if cl, ok := in.(*ssa.Call); ok {
+				if g := cl.Call.StaticCallee(); g != nil && g.Pkg == push.Pkg && len(g.Blocks) > 0 && isBoolResult(g) && !limitHelper[g] {
+					limitHelper[g] = true
+					limitFns = append(limitFns, g)
+				}
+			}
+		}
+	}
+	followLimit := func(g *ssa.Function) bool { return limitHelper[g] }
+	for _, lf := range limitFns {
+		for _, b := range lf.Blocks {
+			for _, in := range b.Instrs {
+				if bo, ok := in.(*ssa.BinOp); ok && (bo.Op == token.GEQ || bo.Op == token.GTR) {
+					if k, isC := constInt(bo.Y); isC && k >= 100 {
+						limitCmps = append(limitCmps, bo)
+						consts[k] = true
+					}
 				}
 			}
 		}
@@ -680,21 +769,34 @@ func ruleBufferLimits(c *Ctx, r *Report) {
 		if u.fn == push {
 			continue
 		}
-		// the inserting function is reached only through Push, and Push calls it only when under the limits
-		sites := c.CallsToName(short(u.fn))
-		okCallers := len(sites) > 0
-		for _, s := range sites {
-			if s.Fn != push {
-				okCallers = false
-				continue
+		// the inserting function is reached only through Push (directly or through other helpers
+		// that are), and Push calls down only when under the limits
+		var underLimit func(fn *ssa.Function, d int) bool
+		underLimit = func(fn *ssa.Function, d int) bool {
+			sites := c.CallsToName(short(fn))
+			if len(sites) == 0 || d > 3 {
+				return false
 			}
-			for _, cmp := range limitCmps {
-				w := (&Walk{Fn: push, Assume: assumeAll(atomAssume{mValue(cmp), vBool(true)})}).FromEntry()
-				if w.Reached[s.Call] {
-					okCallers = false
+			if _, closed := c.staticCallers(fn); !closed {
+				return false
+			}
+			for _, s := range sites {
+				if s.Fn != push {
+					if s.Fn == fn || !underLimit(s.Fn, d+1) {
+						return false
+					}
+					continue
+				}
+				for _, cmp := range limitCmps {
+					w := (&Walk{Fn: push, Follow: followLimit, Assume: assumeAll(atomAssume{mValue(cmp), vBool(true)})}).FromEntry()
+					if w.Reached[s.Call] || w.overflow {
+						return false
+					}
 				}
 			}
+			return true
 		}
+		okCallers := underLimit(u.fn, 0)
 		r.Check(okCallers, rule2, key+":after-limit", c.ipos(u.in), "insert reachable only through Push after both limit tests passed", "a fragment can be stored without passing the reassembly limits (size / count)")
 	}
 	// a fragment is stored under an offset that is not stored yet, or replaces a stored fragment of
@@ -945,6 +1047,17 @@ func ruleDropNotFail(c *Ctx, r *Report) {
 			continue
 		}
 		loop := s.Fn
+		// the obligation is the read loop's: a helper that classifies one datagram's error and
+		// hands everything but "drop" back to its caller has no loop to leave
+		inLoop := false
+		for _, l := range naturalLoops(loop) {
+			if l.blocks[call.Block()] {
+				inLoop = true
+			}
+		}
+		if !inLoop {
+			continue
+		}
 		actions := c.enumConsts("", "readLoopErrorAction")
 		closeAct, okA := actions["readLoopCloseAndStop"]
 		if !okA {
